@@ -28,6 +28,18 @@ CHECKS = {
          "Exploration with an exhaustive core: every text of <= 5 (quick) / 6 (thorough) units over {a, 2-, 3-, 4-byte char, LF, CRLF}, every boundary offset, every position incl. out-of-range ones and every span is converted by the real functions and by a reference written from the LSP text; 30+ million conversions per quick run.",
          "Needs hook H3 (public wrappers of the pub(crate) functions). Offsets strictly inside a CRLF and columns inside a surrogate pair are outside the domain (the protocol gives them no meaning).",
          "DESIGN.md §4 C16"),
+ "C02": ("generated well-typed programs vs. an independent reference semantics over the generator's AST; coinductive document equivalence",
+         "Exploration: thousands (quick) to hundreds of thousands (thorough) of strict-fragment programs covering every construct of the language are compiled by oal and evaluated by R-sem - a separate evaluator that never looks a name up, keeps lexical environments keyed by binder id, makes recursion an explicit mu and emits OpenAPI JSON directly; the two documents must be equal modulo key order, serialisation defaults and unfolding of implicit components. Expected evaluation errors and rejections are compared too.",
+         "Annotation placement is pinned to the observed flow rules (no offline manual); classes with no faithful output (X1 duplicate path, X2 one status/two header sets, X4 use-site annotations on shared references, X5 duplicate names/methods, X9 ambiguous operationId) are recognised by R-sem and counted as excluded.",
+         "DESIGN.md §3, §4 C02"),
+ "C08": ("shadowing-heavy generated programs; the generator's binding table vs. definition() of every Variable, plus the reference semantics for the run-time half",
+         "Exploration: programs whose names come from a 3-4 name pool so that parameters, rec binders, declarations, qualified and unqualified imports and the built-in constantly shadow each other; after load every Variable's definition() is compared (both directions) with the binder the generator meant; injected unbound uses and duplicate declarations must be reported with the right kind; the value half runs through C02's oracle, which has no name lookup at all.",
+         "Trusts the generator's own visibility computation (it is the reference resolver by construction) and identifies definition targets by the span of the binding identifier.",
+         "DESIGN.md §4 C08"),
+ "C09": ("generated programs with declaration cycles and rec under repeated application; reference SCC verdict, mu-unfolding equivalence, component-count bounds",
+         "Exploration: cycle-mode programs (self loops, mutual recursion through schemas, aliases, contents, relations, functions, imports; rec inside functions applied several times; cycles with nothing to cut at) are checked for verdict against an independent SCC analysis, for termination by the CPU watchdog, for absence of aliasing by coinductive comparison with the reference unfolding, and for bounds on the number of emitted hash-* components.",
+         "Only bounds (not equality) on the component count are asserted because the statement leaves open whether equal applications are one instantiation; strict-fragment exclusions as for C02.",
+         "DESIGN.md §4 C09"),
  "C04": ("grammar-aware text fuzzing + exhaustive short token sequences, crash/hang oracle over four front ends",
          "Exploration: every token-kind sequence up to length 3 (all 54 kinds) / 5 (reduced alphabet), plus hundreds of thousands of generated texts, mutants and nesting templates are pushed through parse, the playground entry point, the real oal-cli and the real oal-lsp; any panic, abort, stack overflow, CPU-limit or wrong exit status is a violation. It cannot show absence of crashing inputs outside the explored set.",
          "Trusts the OS process model (exit status, signals, RLIMIT_CPU) and that the harness's own text splitter is only used for non-triviality counting. Known-finding signatures are matched narrowly (panic file + message head + structural label).",
